@@ -1,12 +1,12 @@
 package worker
 
 import (
-	"os"
 	"bytes"
 	"encoding/json"
 	"errors"
 	"fmt"
 	"io"
+	"os"
 	"reflect"
 	"strings"
 
